@@ -46,7 +46,7 @@ ASSUMPTIONS = [
     "history part: all ordered pairs (thorough: triples) of 16 generate_pafs calls whose grids collide in shape but not in coordinates, each history in a forked child, compared with a fresh-process result (module-level caches / scratch buffers keyed too coarsely)",
     "coordinates only from the alphabet {NaN,-4,0,1,2.5,3,N-2,N-1,N+3} per axis (dyadic, so 'cell lies on the segment' is decided exactly); no +-inf coordinates",
     "animals <= 2 (quick) / <= 3 (thorough), nodes <= 3, edge lists = oriented/ordered spanning trees of the node set (1 or 2 edges)",
-    "image sizes (H,W): quick (8,12); thorough (8,8),(8,12),(12,8) and for family A also (12,12) -- all multiples of the strides {1,2,4} -- plus, for families A and C, the size (7,10) at strides 2 and 4 (not a multiple: the output may have floor or ceil(size/stride) cells per axis, every cell is judged at (col*stride,row*stride)); sigma in {0.5,1.5,4}; n_samples = 1 (generate_pafs reads instances[0] only)",
+    "image sizes (H,W): quick (8,12); thorough (8,8),(8,12),(12,8) and for family A also (12,12) -- all multiples of the strides {1,2,4} -- plus, for family A, the 8x4096 frame at stride 1 (edges up to 4090 px long) and, for families A and C, the size (7,10) at strides 2 and 4 (not a multiple: the output may have floor or ceil(size/stride) cells per axis, every cell is judged at (col*stride,row*stride)); sigma in {0.5,1.5,4}; n_samples = 1 (generate_pafs reads instances[0] only)",
     "edge_inds passed as torch.Tensor(list) (float tensor (E,2)), which is how CustomDataset/pipelines call the code",
     "'inside the image' = node in [0,W-1]x[0,H-1]; 'wholly outside' = no node inside; float32 tolerance ATOL=1e-5 on weights/components, DELTA=1e-4 on reference distances",
     "quick runs (flatten, api) in {(True,fn),(False,fn),(True,dp)}; thorough the full 2x2 product",
@@ -147,6 +147,8 @@ def configs(tier, family):
     out = [(hw, s, sg) for hw in hws for s in STRIDES for sg in SIGMAS]
     if family in ("A", "C"):  # a size that is NOT a multiple of the strides 2 and 4 (grid of floor or ceil(size/stride) cells)
         out += [((7, 10), s, sg) for s in STRIDES if s > 1 for sg in (SIGMAS if tier != "quick" else SIGMAS[1:2])]
+    if family == "A":  # a very wide frame: edges thousands of pixels long (coordinates where float32 has ~1e-3 px resolution)
+        out += [((8, 4096), 1, SIGMAS[1])]
     return out
 
 
